@@ -215,7 +215,15 @@ class Move(AbstractCommand):
         self.do_execute()
 
     def do_execute(self):
+        if self.from_index < 0:
+            self.from_index += len(self._collection)
         self.value = self._collection.pop(self.from_index)
+        # remember where insert() really puts the value (it clamps)
+        size = len(self._collection)
+        if self.to_index < 0:
+            self.to_index = max(size + self.to_index, 0)
+        elif self.to_index > size:
+            self.to_index = size
         self._collection.insert(self.to_index, self.value)
 
 
